@@ -386,13 +386,18 @@ private:
     control_block->local_epoch.store(new_epoch, std::memory_order_release);
 
     auto diff = std::min<int>(static_cast<int>(number_epochs), static_cast<int>(new_epoch - old_epoch));
-    epoch_t epoch_idx = local_epoch_idx;
-    for (int i = diff - 1; i >= 0; --i) {
-      epoch_idx = (new_epoch - i) % number_epochs;
-      auto nodes = retire_lists[epoch_idx].steal();
-      detail::delete_objects(nodes.first);
+    // Detach the lists of all expired epochs and switch to the new epoch before deleting anything: a deleter
+    // may retire further objects. These belong to the new epoch - they must neither be added to the list of
+    // the epoch we are leaving behind (which gets reclaimed too early) nor to a list that is reclaimed further
+    // down in this very call.
+    detail::deletable_object* expired[number_epochs];
+    for (int i = 0; i < diff; ++i) {
+      expired[i] = retire_lists[(new_epoch - (diff - 1 - i)) % number_epochs].steal().first;
     }
-    local_epoch_idx = epoch_idx;
+    local_epoch_idx = new_epoch % number_epochs;
+    for (int i = 0; i < diff; ++i) {
+      detail::delete_objects(expired[i]);
+    }
 
     scan_strategy.reset();
   }
